@@ -32,6 +32,8 @@ var families = map[string]genFn{
 	"garbage": genGarbage,
 	"transport": genTransport,
 	"oneonone": genOneOnOne,
+	"multidb": genMultiDB,
+	"cancel": genCancel,
 }
 
 func main() {
